@@ -6,6 +6,8 @@
 //	R2 for k, v := range m  -> simulator-chosen key order (m a map)
 //	R3 time.Now()           -> simrt.Now()
 //	R4 simrt.Step(site)     at every function entry and every for body
+//	R5 (-stmt-yields)       simrt.Step(site) before every statement of every block
+//	R6 sync.Mutex/RWMutex/Once -> simrt.Mutex/RWMutex/Once (a blocking task parks and passes the turn)
 //
 // All rewrites are byte-range splices on the original source, so formatting,
 // comments, //line and //go: directives stay where they were.
@@ -272,6 +274,14 @@ func doFile(p *packages.Package, f *ast.File, filename string) {
 			}
 			return true
 		case *ast.SelectorExpr:
+			// R6: intercepted synchronisation - a task that would block parks and passes the turn
+			for _, name := range []string{"Mutex", "RWMutex", "Once"} {
+				if isPkgSel(info, x, "sync", name) {
+					rep.Counts["sync_"+name]++
+					c.edits = append(c.edits, edit{start: c.off(x.Pos()), end: c.off(x.End()), text: "simrt." + name})
+					return false
+				}
+			}
 			if isPkgSel(info, x, "sync", "Pool") {
 				// a type use outside a composite literal (var x sync.Pool, field, param)
 				rep.Counts["pool_type_use"]++
